@@ -2,9 +2,11 @@ package lssim
 
 import (
 	"fmt"
+	"sort"
 	"strings"
 	"time"
 
+	"github.com/PowerDNS/lightningstream/snapshot/gogosnapshot"
 	"github.com/PowerDNS/lmdb-go/lmdb"
 )
 
@@ -306,7 +308,9 @@ func init() {
 			c.CrashRate = pick(t, "cfg-crash4", 0, 0, 10)
 			return c
 		},
-		Mons: func(f *Fleet) []Monitor { return []Monitor{&MonC14{}, &MonC06{Prop: "C14", SkipRaced: true}} },
+		Mons: func(f *Fleet) []Monitor {
+			return []Monitor{&MonC14{}, &MonC06{Prop: "C14", SkipRaced: true}, &monForeignFlags{}}
+		},
 		Custom: func(f *Fleet) {
 			f.RunWorkload()
 			if f.Failed() {
@@ -675,6 +679,53 @@ func init() {
 		env.Res.Counts = map[string]int{"instances_at_start": len(atStart), "ro_loaded": len(ro.LoadedEvents())}
 		env.Res.Nontrivial = returned && len(atStart) >= 2
 	}})
+}
+
+// monForeignFlags (fleet-header, C14): a peer running other software publishes
+// well-formed snapshots whose entries carry flag bits outside the synced set
+// (and deletions with a payload). Whatever Lightning Stream stores from them
+// must still have a well-formed header.
+type monForeignFlags struct {
+	BaseMonitor
+	n int
+}
+
+func (m *monForeignFlags) StepDone(f *Fleet, actor Actor) {
+	if f.Phase != "workload" || !f.T.Chance("foreign-put", 25) {
+		return
+	}
+	m.n++
+	ts := time.Now()
+	s := &gogosnapshot.Snapshot{FormatVersion: 3, CompatVersion: 1}
+	s.Meta.DatabaseName = DBName
+	s.Meta.InstanceID = "x"
+	s.Meta.TimestampNano = uint64(ts.UnixNano())
+	s.Meta.LmdbTxnID = int64(m.n)
+	flagPool := []uint32{0, 1, 0x02, 0x05, 0x40, 0x80, 0x82, 0xfe, 0xff, 0x100, 0x101, 1 << 31}
+	for _, dbi := range f.Cfg.Work.DBIs {
+		d := &gogosnapshot.DBI{Name: dbi}
+		keys := append([]string{}, f.Cfg.Work.Keys...)
+		keys = append(keys, fmt.Sprintf("xk%d", m.n), "xk")
+		sort.Strings(keys)
+		for _, k := range keys {
+			if !f.T.Chance("foreign-key", 500) {
+				continue
+			}
+			fl := flagPool[f.T.Choose("foreign-flags", len(flagPool))]
+			e := gogosnapshot.KV{Key: []byte(k), TimestampNano: uint64(ts.UnixNano()) - uint64(f.T.Choose("foreign-age", 3))*uint64(time.Second), Flags: fl}
+			if fl&1 == 0 || f.T.Chance("foreign-del-payload", 300) {
+				e.Value = []byte(fmt.Sprintf("x.%d", m.n))
+			}
+			d.Entries = append(d.Entries, e)
+		}
+		s.Databases = append(s.Databases, d)
+	}
+	blob, err := RefEncode(s)
+	if err != nil {
+		panic(err)
+	}
+	f.Bucket.Put(snapName(DBName, "x", ts, ""), blob, "foreign")
+	f.Sim.Probe("foreign-flag-snapshot")
 }
 
 // fleet-hostile (C08): honest instances plus a hostile publisher that places
